@@ -378,9 +378,58 @@ def gen_case(rng, tier, store=None, nops=None, fault_rate=0.12):
     fault = lambda: rng.choice("afs") if rng.random() < fault_rate else "n"
     S = lambda: "b" if rng.random() < 0.15 else "a"
     live = lambda pool: [i for i, x in enumerate(pool) if x is not None]
+    def advance():
+        """emit the next useful step of one request's lifecycle on one system"""
+        q = rng.randrange(len(sim.reqs))
+        r = sim.reqs[q]
+        s = S()
+        st = sim.sys[s]
+        e = st["index"].get(r["key"])
+        if e is None:
+            emit(("req", s, q, fault())); return
+        if e["post"] == 0:
+            aus = [i for i, a in enumerate(sim.auths) if a["key"] == r["key"] and a["basis"] == r["basis"]]
+            if not aus:
+                emit(("auth", q, adapters[0], registry)); return
+            toks = [i for i, t in enumerate(sim.tokens) if t is not None and t["key"] == r["key"] and t["req"]["valid"]]
+            if not toks:
+                emit(("rec", s, q)); return
+            emit(("claim", s, rng.choice(toks), rng.choice(aus), r["basis"], 0, rng.getrandbits(256), fault())); return
+        if e["post"] == 1:
+            gs = [i for i, g in enumerate(sim.grants) if g is not None and g["key"] == r["key"] and g["cuid"] == e["cuid"]]
+            if not gs:
+                emit(("grant", s, q)); return
+            g = rng.choice(gs)
+            cs = [i for i, c in enumerate(sim.cands) if c["ok"] and c["key"] == r["key"] and c["claim"] == e["claim"]]
+            if not cs or rng.random() < 0.2:
+                mb = r["maxb"]
+                ln = rng.choice([0, 1, min(mb, 40), min(mb, 200), min(mb, 1100), min(mb, 2100)])
+                emit(("cand", g, rng.randint(1, 4), [rng.randint(0, 255) for _ in range(ln)], rng.getrandbits(256), rng.getrandbits(256), "none", 0))
+                return
+            emit(("settle", s, g, rng.choice(cs), fault())); return
+        y = rng.random()
+        cs = [i for i, c in enumerate(sim.cands) if c["key"] == r["key"]]
+        if y < 0.5 and cs:
+            emit(("retry", s, rng.choice(cs)))
+        elif y < 0.7:
+            emit(("adm", s, q))
+        elif y < 0.85:
+            emit(("grant", s, q))
+        else:
+            emit(("req", s, q, "n"))
+
     for _ in range(n):
         if not sim.reqs:
             break
+        if rng.random() < 0.6:
+            advance()
+            for t in "ab":
+                st = sim.sys[t]
+                if not st["ready"] and rng.random() < 0.7:
+                    if st["dirty"] and rng.random() < 0.85:
+                        emit(("trunc", t))
+                    emit(("recover", t))
+            continue
         x = rng.random()
         q = rng.randrange(len(sim.reqs))
         r = sim.reqs[q]
